@@ -115,6 +115,17 @@ CLAIMED = {
         "input validity); two lemmas about the recursively defined offset function (monotone, invertible: lemmas/Offsets.lean); termination of the recursion of "
         "requires() over the nesting is not proved. AbstractJob.__init__, PureScheduler.__init__ and Scheduler.__init__ are covered by the bounded part only.",
    tech=TECH),
+ 'C20': dict(cat='other', design='6/C20',
+   text="Mostly bounded. Under contract: PureScheduler.topological_order (every member yielded exactly once, requirements first), which orders the "
+        "numbering, the node statements and the listing. The statement itself is about the text dot_format() returns and what list() prints; no contract within "
+        "reach of the SMT encoding decides a string grammar, so the deciding part is a bounded check of the real code: an independent DOT-subset parser "
+        "reads the output back and compares nodes, clusters (nesting), edges (with ltail/lhead resolved), labels after unquoting and the flag attributes with "
+        "the tree, and the output of list() is read back, over the enumerated trees stated in the evidence. Labelled bounded, never counted as proved.",
+   note="Bounded: trees up to depth 3, <= 4 members per level, 27 label strings. dot_format() raises for a nested scheduler without any atomic job that takes "
+        "part in a requirement (known finding, listed in known_findings.json). The dot binary is not installed, so 'syntactically valid' means accepted by the "
+        "parser in replay/dotcheck.py, written from the DOT grammar.",
+   tech="bounded check of the real code standing in for contracts (DOT-subset parser + structural comparison, exhaustive small trees and seeded random trees); "
+        "contract-based deductive verification (AST->SMT, z3 + cvc5) only for topological_order"),
  'C17': dict(cat='proof', design='6/C17',
    text="Contracts on _backlinks, _neighbours (specialised for the two attribute names), predecessors, successors, "
         "_neighbours_closure, predecessors_upstream, successors_downstream, entry_jobs, exit_jobs. Closures are specified as least "
